@@ -213,7 +213,9 @@ func (c *c14) strat(f []string) string {
 // known; a whole SCAN iteration from cursor 0 (every node answers cursor 0 and one key)
 //
 //	-> targets=<M<i> | R<i>.<j> | X, in call order> keys=<number of keys returned>
-func (c *c14) scan(st, nmS, nrS string) string {
+// an optional fourth argument gives the owner of each of eight equal slot ranges ("00221133": a digit per range, '-' = no node lists it);
+// without it the masters own equal contiguous shares.
+func (c *c14) scan(st, nmS, nrS, own string) string {
 	nm, e1 := strconv.Atoi(nmS)
 	nr, e2 := strconv.Atoi(nrS)
 	strat, ok := map[string]pbredis.ReadStrategy{"M": pbredis.ReadStrategy_MASTER, "R": pbredis.ReadStrategy_REPLICA, "B": pbredis.ReadStrategy_BOTH}[st]
@@ -239,17 +241,36 @@ func (c *c14) scan(st, nmS, nrS string) string {
 	c14seq++
 	rig := redis.VerifNewRig(fmt.Sprintf("c14scan-%d", c14seq), hx.RedisConfig(strat, nil), hosts, addrs)
 	defer hx.DropScopes(rig.ScopeName())
-	per := 16384 / nm
-	for i := 0; i < nm; i++ {
-		hi := (i+1)*per - 1
-		if i == nm-1 {
-			hi = 16383
-		}
+	repsOf := func(i int) []string {
 		var reps []string
 		for j := 0; j < nr; j++ {
 			reps = append(reps, fmt.Sprintf("n%05d:1r%d", i, j))
 		}
-		rig.SetSlot(i*per, hi, hx.NodeAddr(i), reps)
+		return reps
+	}
+	if own != "" {
+		if len(own) != 8 {
+			return "bad-op"
+		}
+		for r := 0; r < 8; r++ {
+			if own[r] == '-' {
+				continue
+			}
+			i := int(own[r] - '0')
+			if i < 0 || i >= nm {
+				return "bad-op"
+			}
+			rig.SetSlot(r*2048, r*2048+2047, hx.NodeAddr(i), repsOf(i))
+		}
+	} else {
+		per := 16384 / nm
+		for i := 0; i < nm; i++ {
+			hi := (i+1)*per - 1
+			if i == nm-1 {
+				hi = 16383
+			}
+			rig.SetSlot(i*per, hi, hx.NodeAddr(i), repsOf(i))
+		}
 	}
 	cursor := []byte("0")
 	var targets []string
@@ -290,8 +311,12 @@ func (c *c14) Exec(op string) string {
 	if len(f) >= 1 && f[0] == "c14.topo" {
 		return recoverStr(func() string { return c.topo(f[1:]) })
 	}
-	if len(f) == 4 && f[0] == "c14.scan" {
-		return recoverStr(func() string { return c.scan(f[1], f[2], f[3]) })
+	if (len(f) == 4 || len(f) == 5) && f[0] == "c14.scan" {
+		own := ""
+		if len(f) == 5 {
+			own = f[4]
+		}
+		return recoverStr(func() string { return c.scan(f[1], f[2], f[3], own) })
 	}
 	if len(f) >= 2 && f[0] == "c14.strat" {
 		return recoverStr(func() string { return c.strat(f[1:]) })
@@ -405,6 +430,17 @@ func (c *c14) Gen(r *hx.Run) {
 			for _, a2 := range []string{"000", "001", "011", "111", "100"} {
 				r.Do(fmt.Sprintf("c14.topo %s %s %s 40", st, a1, a2), a1 != a2, "topo")
 				r.Do(fmt.Sprintf("c14.scan %s %d %d", st, 1+rng.Intn(5), rng.Intn(3)), true, "scan-roles")
+				// scattered ownership: masters that own several ranges, masters that own nothing, ranges nobody lists
+				nm := 2 + rng.Intn(5)
+				own := make([]byte, 8)
+				for k := range own {
+					if k > 0 && rng.Intn(6) == 0 { // (at least one range is listed: with no slot known the walk is over the configured hosts)
+						own[k] = '-'
+					} else {
+						own[k] = byte('0' + rng.Intn(nm))
+					}
+				}
+				r.Do(fmt.Sprintf("c14.scan %s %d %d %s", st, nm, rng.Intn(3), own), true, "scan-roles")
 			}
 		}
 	}
